@@ -475,6 +475,41 @@ def gr_8a(ctx, rep):
                ('node types that can contain %s but are missing: %s' % (sorted(targets)[0], sorted(missing))
                 if missing else 'entries no grammar justifies: %s' % sorted(extra)),
                witness={'missing': sorted(missing), 'extra': sorted(extra)})
+    # by role: every search of a scope for node types T descends through a table that contains every node type from
+    # which a T is reachable without crossing a scope (whatever the table is called, also one passed per call)
+    scope = ctx.prog.cls(PYTREE, 'Scope')
+    search = scope.methods.get('_search_in_scope') if scope is not None else None
+    if search is not None:
+        default_tables = set()
+        for g_ in [search] + list(search.nested.values()):
+            for n in walk_own(g_.node):
+                if isinstance(n, ast.Compare) and len(n.ops) == 1 and isinstance(n.ops[0], ast.In) \
+                        and isinstance(n.left, ast.Attribute) and n.left.attr == 'type' and isinstance(n.comparators[0], ast.Name) \
+                        and n.comparators[0].id in search.mod.globals:
+                    default_tables.add(n.comparators[0].id)
+        for f in ctx.prog.funcs.values():
+            if f.mod.rel != PYTREE:
+                continue
+            for c in walk_own(f.node):
+                if not (isinstance(c, ast.Call) and isinstance(c.func, ast.Attribute) and c.func.attr == search.name):
+                    continue
+                targets = {a.value for a in c.args if isinstance(a, ast.Constant) and isinstance(a.value, str)}
+                if not targets or len(targets) != len(c.args):
+                    continue
+                names = [k.value.id for k in c.keywords if isinstance(k.value, ast.Name) and k.value.id in f.mod.globals] \
+                    or sorted(default_tables)
+                for tname in names:
+                    try:
+                        table = module_set(ctx, PYTREE, tname)
+                    except AnalysisError:
+                        continue
+                    computed = set()
+                    for g in ctx.grammars:
+                        computed |= containers(g, targets) - targets
+                    missing = computed - table
+                    rep.ob('GR-8a', PYTREE, f.qual, 'search for %s descends through %s' % ('/'.join(sorted(targets)), tname), not missing,
+                           'a %s can sit inside %s, which the table %s does not contain: such a node is not found'
+                           % (sorted(targets)[0], sorted(missing), tname), witness=sorted(missing))
     # _FLOW_CONTAINERS must be the statement-level subset: every member is in both other tables
     flow = module_set(ctx, PYTREE, '_FLOW_CONTAINERS')
     ret = module_set(ctx, PYTREE, '_RETURN_STMT_CONTAINERS')
